@@ -20,7 +20,7 @@ func main() {
 		defer lwg.Wait()
 		n := r.Pick(500, 10000)
 		st := sh.Batch(r, "C08", "hist", n, 8, func(c *ev.Case, i int) sh.Config {
-			cfg := sh.Config{NoUpstream: i%2 == 1, Steps: 6 + c.Rand.Intn(25), Windows: []int{sh.WCurrent, sh.WCurrent, sh.WForever, sh.WPast}, LockOps: true, DirectLock: i%3 == 0, KIDs: []string{"touch", "text", "touchless"}, Preload: true,
+			cfg := sh.Config{NoUpstream: i%2 == 1, Steps: 6 + c.Rand.Intn(25), Windows: []int{sh.WCurrent, sh.WCurrent, sh.WForever, sh.WPast}, LockOps: true, DirectLock: i%3 == 0, KIDs: []string{"touch", "text", "touchless"}, Preload: true, Forward: i%2 == 0,
 				Weights: map[string]int{"lock": 12, "unlock": 12, "close-locked": 4, "direct-lock": 5, "add-hard-cert": 8, "list": 8, "direct-add": 4, "direct-remove": 2}}
 			if i%4 == 3 {
 				cfg.LockFaultPct = 40
